@@ -215,3 +215,60 @@ fn rt_mouse_button(btn: Btn) {
         !ignored(osc) && is_mouse_btn(osc) ==> final(kb).log@ == old(kb).log@.push(Out::Unclick(btn_of(osc))),
         !ignored(osc) && is_wheel(osc) ==> r.is_ok() && final(kb).log@ == old(kb).log@,
         !ignored(osc) && !is_mouse_btn(osc) && !is_wheel(osc) ==> final(kb).log@ == old(kb).log@.push(Out::PostRelease(osc)),
+
+// E3: keys that the code names on BOTH sides - modifiers, the reserved `No`, a few editing keys -
+// denote the same number in the internal (KeyCode) and the OS (OsCode) code space.  Each number is
+// read from the enum body on every run (enumconst); the obligation is the pairwise equality.
+//@ enumconst keyberon/src/key_code.rs KeyCode No kc_No
+//@ enumconst parser/src/keys/mod.rs OsCode KEY_UNKNOWN osc_KEY_UNKNOWN
+//@ enumconst keyberon/src/key_code.rs KeyCode LShift kc_LShift
+//@ enumconst parser/src/keys/mod.rs OsCode KEY_LEFTSHIFT osc_KEY_LEFTSHIFT
+//@ enumconst keyberon/src/key_code.rs KeyCode RShift kc_RShift
+//@ enumconst parser/src/keys/mod.rs OsCode KEY_RIGHTSHIFT osc_KEY_RIGHTSHIFT
+//@ enumconst keyberon/src/key_code.rs KeyCode LCtrl kc_LCtrl
+//@ enumconst parser/src/keys/mod.rs OsCode KEY_LEFTCTRL osc_KEY_LEFTCTRL
+//@ enumconst keyberon/src/key_code.rs KeyCode RCtrl kc_RCtrl
+//@ enumconst parser/src/keys/mod.rs OsCode KEY_RIGHTCTRL osc_KEY_RIGHTCTRL
+//@ enumconst keyberon/src/key_code.rs KeyCode LAlt kc_LAlt
+//@ enumconst parser/src/keys/mod.rs OsCode KEY_LEFTALT osc_KEY_LEFTALT
+//@ enumconst keyberon/src/key_code.rs KeyCode RAlt kc_RAlt
+//@ enumconst parser/src/keys/mod.rs OsCode KEY_RIGHTALT osc_KEY_RIGHTALT
+//@ enumconst keyberon/src/key_code.rs KeyCode LGui kc_LGui
+//@ enumconst parser/src/keys/mod.rs OsCode KEY_LEFTMETA osc_KEY_LEFTMETA
+//@ enumconst keyberon/src/key_code.rs KeyCode RGui kc_RGui
+//@ enumconst parser/src/keys/mod.rs OsCode KEY_RIGHTMETA osc_KEY_RIGHTMETA
+//@ enumconst keyberon/src/key_code.rs KeyCode BSpace kc_BSpace
+//@ enumconst parser/src/keys/mod.rs OsCode KEY_BACKSPACE osc_KEY_BACKSPACE
+//@ enumconst keyberon/src/key_code.rs KeyCode Space kc_Space
+//@ enumconst parser/src/keys/mod.rs OsCode KEY_SPACE osc_KEY_SPACE
+//@ enumconst keyberon/src/key_code.rs KeyCode Enter kc_Enter
+//@ enumconst parser/src/keys/mod.rs OsCode KEY_ENTER osc_KEY_ENTER
+//@ enumconst keyberon/src/key_code.rs KeyCode Escape kc_Escape
+//@ enumconst parser/src/keys/mod.rs OsCode KEY_ESC osc_KEY_ESC
+//@ enumconst keyberon/src/key_code.rs KeyCode Tab kc_Tab
+//@ enumconst parser/src/keys/mod.rs OsCode KEY_TAB osc_KEY_TAB
+//@ enumconst keyberon/src/key_code.rs KeyCode Kb1 kc_Kb1
+//@ enumconst parser/src/keys/mod.rs OsCode KEY_1 osc_KEY_1
+//@ enumconst keyberon/src/key_code.rs KeyCode Kb0 kc_Kb0
+//@ enumconst parser/src/keys/mod.rs OsCode KEY_0 osc_KEY_0
+//@ raw
+proof fn e3_named_codes_coincide()
+    ensures
+        kc_No() == osc_KEY_UNKNOWN(),
+        kc_LShift() == osc_KEY_LEFTSHIFT(),
+        kc_RShift() == osc_KEY_RIGHTSHIFT(),
+        kc_LCtrl() == osc_KEY_LEFTCTRL(),
+        kc_RCtrl() == osc_KEY_RIGHTCTRL(),
+        kc_LAlt() == osc_KEY_LEFTALT(),
+        kc_RAlt() == osc_KEY_RIGHTALT(),
+        kc_LGui() == osc_KEY_LEFTMETA(),
+        kc_RGui() == osc_KEY_RIGHTMETA(),
+        kc_BSpace() == osc_KEY_BACKSPACE(),
+        kc_Space() == osc_KEY_SPACE(),
+        kc_Enter() == osc_KEY_ENTER(),
+        kc_Escape() == osc_KEY_ESC(),
+        kc_Tab() == osc_KEY_TAB(),
+        kc_Kb1() == osc_KEY_1(),
+        kc_Kb0() == osc_KEY_0(),
+{
+}
